@@ -691,6 +691,7 @@ func (fr *frame) runLoop(l *loop, ins []edge, incoming map[*ssa.BasicBlock][]edg
 	lname := fmt.Sprintf("%s loop %d", fr.fn.Name(), l.ordinal)
 	// 1. invariant holds on entry
 	env0 := fr.specEnv(bc, st0)
+	env0.ctx = l.header
 	for _, iv := range invs {
 		u.oblige(st0, "loop.init", fmt.Sprintf("%s invariant %s", lname, iv.Text()), iv.Pos(), env0.evalBool(iv.Expr))
 	}
@@ -705,6 +706,7 @@ func (fr *frame) runLoop(l *loop, ins []edge, incoming map[*ssa.BasicBlock][]edg
 	}
 	u.havocRegion(st1, lreg, lname)
 	env1 := fr.specEnv(bc, st1)
+	env1.ctx = l.header
 	for _, iv := range invs {
 		u.assume(st1, env1.evalBool(iv.Expr))
 	}
@@ -742,6 +744,7 @@ func (fr *frame) runLoop(l *loop, ins []edge, incoming map[*ssa.BasicBlock][]edg
 	// 4. invariant preserved, measure decreases
 	for _, e := range backs {
 		envb := fr.specEnv(bc, e.st)
+		envb.ctx = l.header
 		for _, iv := range invs {
 			u.oblige(e.st, "loop.preserved", fmt.Sprintf("%s invariant %s", lname, iv.Text()), iv.Pos(), envb.evalBool(iv.Expr))
 		}
